@@ -1,0 +1,35 @@
+//go:build verif
+// +build verif
+
+package vbft
+
+import (
+	vconfig "github.com/polynetwork/poly/consensus/vbft/config"
+)
+
+// Exported wrappers around the unexported participant-selection functions, compiled only with the build
+// tag `verif` (used by the verification harness in /verif; no behaviour change without the tag).
+
+// VerifCalcParticipant exposes calcParticipant.
+func VerifCalcParticipant(vrf vconfig.VRFValue, dposTable []uint32, k uint32) uint32 {
+	return calcParticipant(vrf, dposTable, k)
+}
+
+// VerifCalcParticipantPeers exposes calcParticipantPeers for a participant config that carries the given
+// seed and (already chosen) proposers.
+func VerifCalcParticipantPeers(vrf vconfig.VRFValue, proposers []uint32, chain *vconfig.ChainConfig, start, end int) []uint32 {
+	cfg := &BlockParticipantConfig{Vrf: vrf, ChainConfig: chain, Proposers: proposers}
+	return calcParticipantPeers(cfg, chain, start, end)
+}
+
+// VerifParticipantSeed exposes getParticipantSelectionSeed.
+func VerifParticipantSeed(block *Block) vconfig.VRFValue {
+	return getParticipantSelectionSeed(block)
+}
+
+// VerifBuildParticipantConfig runs buildParticipantConfig on a server that has nothing but a state manager
+// (the method reads the server only for its log line).
+func VerifBuildParticipantConfig(blkNum uint32, block *Block, chainCfg *vconfig.ChainConfig) (*BlockParticipantConfig, error) {
+	s := &Server{stateMgr: &StateMgr{}}
+	return s.buildParticipantConfig(blkNum, block, chainCfg)
+}
